@@ -21,6 +21,12 @@ CLAIMED["C01"] = ("4/C01", "Per calculator: year-length recurrence, day->year (e
                   "full year range for Gregorian/ISO, Julian, Coptic, Um Al Qura and Islamic year-level lemmas; seeded 180-year windows "
                   "(all windows in thorough) for Persian x3, Hebrew x2, Badi with year functions tabulated from the real code; the implication "
                   "lemmas => round trip is itself discharged by z3.", "windows not reached by a run are outside that run's claim; Hebrew month-order lemmas pending")
+CLAIMED["C14"] = ("4/C14", "Real writer -> list-backed stream -> real reader round trips for counts (all ints), signed counts (int32), "
+                  "milliseconds (+-1 day, accepted range exact), offsets, fixed-width words (modulo semantics), transitions (every pair of "
+                  "tick-aligned instants, partitioned by the documented encoding: hours-since-previous / minutes-since-1800 / raw), markers, "
+                  "pooled strings, inline UTF-8 strings, _ZoneYearOffset (all fields); canonical compact forms of milliseconds and transitions "
+                  "asserted on the bytes written; the literal re-encoding of every rule-based zone of both database files is a labelled concrete premise.",
+                  "composite lemmas use primitive channels whose contracts are the primitive lemmas; recurrence/alternating-map/precalculated-zone round trips pending")
 NOT_BUILT = {}
 
 NA_REASON = "check not built yet in this round (design in DESIGN.md section 4); no claim is made"
